@@ -187,6 +187,9 @@ class Proc:
         self.scheduler = None
         self.exit = None
         self.stdout = ''
+        self.fail = spec.get('fail')          # {'page': id, 'at_write': None | k}: transient failure of one page
+        self.fail_writes = 0
+        self.failed_pages = []
 
 
 # -------------------------------------------------------------------- file digests
@@ -287,6 +290,16 @@ class PfWorld:
         self.steps += 1
         if self.steps > self.step_cap:
             raise kernel.StepCapExceeded('more than %d write seams' % self.step_cap)
+        if p.fail and p.fail.get('at_write') is not None and self.owner_of(path) == p.fail['page']:
+            n = p.fail_writes
+            p.fail_writes += 1
+            if n == p.fail['at_write']:
+                # a write error (disk full) on one output of one page: the driver reports the page as failed
+                # and carries on; a later run has to finish the page
+                p.failed_pages.append(p.fail['page'])
+                self.res.fault('disk_error_on_write')
+                self.log.add(self.actor(), 'FAULT-write-error', self.rel(path))
+                raise OSError(28, 'No space left on device (injected by the simulator)', str(path))
         if p.crash_at is not None and p.writes_done == p.crash_at:
             p.killed = True
             self.log.add(self.actor(), 'KILL-before-write', self.rel(path))
@@ -299,6 +312,23 @@ class PfWorld:
     def on_process_page(self, pid):
         self.proc.processed.append(pid)
         self.log.add(self.actor(), 'process_page', pid)
+        f = self.proc.fail
+        if f and f.get('at_write') is None and f['page'] == pid and pid not in self.proc.failed_pages:
+            self.proc.failed_pages.append(pid)
+            self.res.fault('transient_page_failure')
+            self.log.add(self.actor(), 'FAULT-page-failure', pid)
+            raise kernel.InjectedFault('transient failure while processing page %s (injected by the simulator)' % pid)
+
+    def owner_of(self, path):
+        """The page an output file belongs to (longest id such that the file name is <id>.<ext> or <id>-<line>.jpg)."""
+        name = os.path.basename(str(path))
+        best = None
+        for pg in self.plan['pages']:
+            pid = pg['id']
+            if name.startswith(pid + '.') and name[len(pid):] in ('.xml', '.jpg', '.logits') or name.startswith(pid + '-'):
+                if best is None or len(pid) > len(best):
+                    best = pid
+        return best
 
     # -- environment
     def install(self):
